@@ -119,13 +119,13 @@ Print Assumptions C16_operand_unchanged.
    parameters, everything else untouched), such a result is unique, and it is the same mapping for
    EVERY order of the keywords *)
 Theorem C16_call_order_independent V (inj : string -> V) base kw kw' : Permutation kw kw' -> NoDup (map fst kw) ->
-  avail (aupdate base (consts kw)) (funs kw) -> acyclic (funs kw) ->
+  self_free base kw -> avail (aupdate base (consts kw)) (funs kw) -> acyclic (funs kw) ->
   exists R R', dict_call inj base kw = COk R /\ dict_call inj base kw' = COk R' /\ (forall k, aget k R = aget k R') /\
     solves inj (aupdate base (consts kw)) (funs kw) R /\
     (forall R2, solves inj (aupdate base (consts kw)) (funs kw) R2 -> forall k, aget k R2 = aget k R).
 Proof.
-  intros HP HN HA HC. destruct (call_order_independent inj base kw kw' HP HN HA HC) as [R [R' [E1 [E2 E3]]]].
-  destruct (dict_call_solves inj base kw HN HA HC) as [R0 [E0 S0]]. assert (R0 = R) by congruence. subst R0.
+  intros HP HN HSF HA HC. destruct (call_order_independent inj base kw kw' HP HN HSF HA HC) as [R [R' [E1 [E2 E3]]]].
+  destruct (dict_call_solves inj base kw HN HSF HA HC) as [R0 [E0 S0]]. assert (R0 = R) by congruence. subst R0.
   exists R, R'. split; [auto|]. split; [auto|]. split; [auto|]. split; [exact S0|].
   intros R2 S2. apply (solves_unique inj _ _ R2 R HC S2 S0).
 Qed.
@@ -133,7 +133,7 @@ Print Assumptions C16_call_order_independent.
 
 (* ... and equals one-by-one evaluation in any dependency (topological) order *)
 Theorem C16_call_is_dependency_order_evaluation V (inj : string -> V) base kw order : NoDup (map fst kw) ->
-  avail (aupdate base (consts kw)) (funs kw) -> acyclic (funs kw) ->
+  self_free base kw -> avail (aupdate base (consts kw)) (funs kw) -> acyclic (funs kw) ->
   Permutation order (funs kw) -> sched (funs kw) (skeys (funs kw)) order ->
   exists R R', dict_call inj base kw = COk R /\ eval_seq inj (aupdate base (consts kw)) order = Some R' /\
                forall k, aget k R = aget k R'.
@@ -142,7 +142,7 @@ Print Assumptions C16_call_is_dependency_order_evaluation.
 
 (* circular definitions: a set S of >= 2 derived keys each depending on a member of S (any dependency
    cycle k0 -> k1 -> ... -> k0 of length >= 2 is one) gives ValueError, in every keyword order *)
-Theorem C16_call_cycle_raises V (inj : string -> V) base kw S : NoDup (map fst kw) ->
+Theorem C16_call_cycle_raises V (inj : string -> V) base kw S : NoDup (map fst kw) -> self_free base kw ->
   avail (aupdate base (consts kw)) (funs kw) ->
   (forall k, In k S -> In k (skeys (funs kw))) ->
   (forall kc, In kc (funs kw) -> In (fst kc) S -> exists d, In d (deps kc) /\ In d S) ->
@@ -150,6 +150,15 @@ Theorem C16_call_cycle_raises V (inj : string -> V) base kw S : NoDup (map fst k
   dict_call inj base kw = CErr "ValueError".
 Proof. exact (call_cycle_raises inj base kw S). Qed.
 Print Assumptions C16_call_cycle_raises.
+
+(* known finding: an entry or a keyword literally named self collides with the self parameter of the methods the
+   values travel through (Dict.__call__, wrapper.__call__): TypeError even for a callable that never asks for it *)
+Theorem C16_call_self_named_key_refuted :
+  dict_call (fun _ => 0%Z) [("a", 1%Z); ("self", 2%Z)] [("k", IFun ["a"] (fun vs => 0%Z))] = CErr "TypeError" /\
+  dict_call (fun _ => 0%Z) [("a", 1%Z)] [("self", IConst 2%Z)] = CErr "TypeError" /\
+  dict_call (fun _ => 0%Z) [("a", 1%Z)] [("k", IFun ["a"] (fun vs => 0%Z))] = COk [("a", 1%Z); ("k", 0%Z)].
+Proof. vm_compute. repeat split. Qed.
+Print Assumptions C16_call_self_named_key_refuted.
 
 (* the while loop terminates on every input: each round removes at least one key *)
 Theorem C16_call_terminates V (inj : string -> V) base kw : dict_call inj base kw <> CErr "fuel".
@@ -163,7 +172,7 @@ Example C16_example :
   ul_add hv_eqb [HInt 1; HInt 3; HInt 2] (OList [HInt 4; HFloat 1; HInt 5; HInt 4]) = [HInt 1; HInt 3; HInt 2; HInt 4; HInt 5] /\
   ul_and hv_eqb [HInt 1; HInt 3; HInt 2] (OElem (HFloat 3)) = [HFloat 3] /\
   (let kw := [("c", IFun ["a"; "b"] (fun vs => fold_left Z.add vs 0%Z)); ("b", IFun ["a"] (fun vs => fold_left Z.add vs 1%Z))] in
-   acyclic (funs kw) /\ avail (aupdate [("a", 1%Z)] (consts kw)) (funs kw) /\ NoDup (map fst kw) /\
+   acyclic (funs kw) /\ avail (aupdate [("a", 1%Z)] (consts kw)) (funs kw) /\ NoDup (map fst kw) /\ self_free [("a", 1%Z)] kw /\
    dict_call (fun _ => 0%Z) [("a", 1%Z)] kw = COk [("a", 1%Z); ("b", 2%Z); ("c", 3%Z)] /\
    dict_call (fun _ => 0%Z) [("a", 1%Z)] (rev kw) = COk [("a", 1%Z); ("b", 2%Z); ("c", 3%Z)]) /\
   dict_call (fun _ => 0%Z) [("a", 1%Z)] [("b", IFun ["c"] (fun vs => 0%Z)); ("c", IFun ["b"] (fun vs => 0%Z))] = CErr "ValueError".
@@ -179,5 +188,6 @@ Proof.
   { intros kc d [<-|[<-|[]]]; simpl; intros [<-|H]; try (destruct H as [<-|[]]); simpl; try tauto;
       try (left; discriminate); right; left; simpl; tauto. }
   split; [repeat constructor; simpl; intuition discriminate|].
+  split; [split; [reflexivity|simpl; intuition discriminate]|].
   split; vm_compute; reflexivity.
 Qed.
